@@ -50,7 +50,11 @@ def run_groups(res, groups, want_dec=None, timeout=120, variant="hooks", recon=T
         if not known_key_fn:
             return None
         hit = [r for r in rs if r["desc"] == rej["desc"]]
-        return dict(known_key_fn(hit[0], "mismatch"), enable_tpl_la=int(hit[0]["case"]["sets"].get("enable_tpl_la", 0))) if hit else None
+        if not hit:
+            return None
+        k = dict(known_key_fn(hit[0], "mismatch"), enable_tpl_la=int(hit[0]["case"]["sets"].get("enable_tpl_la", 0)))
+        k["first_item"] = (rej.get("event") or {}).get("k")      # index of the first packet / picture that differs
+        return k
     b.validate(res, "Observe", what, key_fn=kf)
     corpus.cleanup(rs)
     return by_group
